@@ -42,6 +42,7 @@ Oracle (the property, public accessors only; _c14_impl.oracle_run): each pass up
   following round changes nothing; I1-I6 link consistency, sorted stays sorted, names needed by serialization kept,
   serializable stays serializable; analysis passes (CheckerPass always, ShapeInferencePass when inference fails
   or raises) leave a deep snapshot (initializer order, const_value identity, inputs, shapes, types) unchanged.
+  RemoveUnusedNodesPass additionally runs on the exhaustive optional-output family (optional_output_specs, 870 specs).
   Faults: onnx.checker.check_model / onnx.shape_inference.infer_shapes rebound to raise; a LazyTensor whose
   evaluation raises during serialization.  Scripted infra oracle: identity rule and PassManager convergence
   (C14_manager_converges) on the real PassManager.
@@ -718,6 +719,52 @@ def correspondence(ck, scale: int) -> dict:
     return fam
 
 
+# ops with optional outputs (ONNX schemas, opset 20): (op, number of outputs, number of inputs, attrs variants)
+OPT_OUT_OPS = [
+    ("LayerNormalization", 3, 3, [{}]),
+    ("BatchNormalization", 3, 5, [{}, {"training_mode": 1}]),
+    ("Dropout", 2, 1, [{}]),
+    ("MaxPool", 2, 1, [{"kernel_shape": [1]}]),
+    ("LSTM", 3, 3, [{"hidden_size": 2}]),
+    ("GRU", 2, 3, [{"hidden_size": 2}]),
+]
+
+
+def optional_output_specs() -> list[dict]:
+    """Exhaustive, seed-independent family for the optional-output rule of RemoveUnusedNodesPass
+    (_remove_unused_optional_outputs): every op above x every role of every output
+    (u = named but unused, c = consumed by a kept node, o = graph output; for trailing outputs also a shorter
+    output list) x other dead code present/absent x default opset given/absent x trailing None input or not."""
+    import itertools
+    out = []
+    for op, nout, nin, attr_variants in OPT_OUT_OPS:
+        for attrs in attr_variants:
+            for k in range(1, nout + 1):                       # number of outputs the node actually has
+                for roles in itertools.product("uco", repeat=k):
+                    if "c" not in roles and "o" not in roles:
+                        continue                               # the node itself would be dead: covered by `dead`
+                    for dead, opset, tnone in itertools.product((False, True), (True, False), (False, True)):
+                        if tnone and (dead or not opset):
+                            continue
+                        outs = [f"y{i}" for i in range(k)]
+                        ins = ["x0"] * nin + ([None] if tnone else [])
+                        nodes = [{"name": "n0", "op": op, "ins": ins, "outs": outs, "attrs": dict(attrs)}]
+                        gouts = []
+                        for i, r in enumerate(roles):
+                            if r == "c":
+                                nodes.append({"name": f"c{i}", "op": "Relu", "ins": [outs[i]], "outs": [f"z{i}"]})
+                                gouts.append(f"z{i}")
+                            elif r == "o":
+                                gouts.append(outs[i])
+                        if dead:
+                            nodes.append({"name": "dead", "op": "Relu", "ins": ["x0"], "outs": ["d0"]})
+                        g = {"name": "g", "inputs": ["x0"], "inits": [], "nodes": nodes, "outputs": gouts,
+                             "opsets": {"": 20} if opset else {"custom": 1}}
+                        out.append({"graph": g, "functions": [], "names": {},
+                                    "_tag": f"{op}:{''.join(roles)}:dead={dead}:opset={opset}:tnone={tnone}"})
+    return out
+
+
 def gen_composition(rng, names: list[str]):
     k = rng.random()
     pick = lambda: rng.choice(names)  # noqa: E731
@@ -775,6 +822,14 @@ def oracle_sweep(ck, n_specs: int, n_comp: int, specs_first: list[dict]) -> list
             s2["graph"]["inits"][rng.randrange(len(s2["graph"]["inits"]))]["kind"] = "lazyraise"
             for name in ("Checker", "ShapeInference"):
                 run(s2, name)
+    if n_specs >= 100:          # the main sweep (not the short search rounds): exhaustive optional-output family
+        fam = optional_output_specs()
+        for spec in fam:
+            run(spec, "RemoveUnusedNodes")
+            ck.hist("optional_output_family", spec["_tag"].split(":")[0])
+        for spec in fam[::7]:
+            run(spec, {"fun": "RemoveUnusedNodes"})
+            run(spec, {"mgr": ["RemoveUnusedNodes"], "steps": 3, "early": True})
     for i in range(n_comp):
         spec = specs[rng.randrange(len(specs))] if specs else I.gen_spec(rng)
         run(spec, gen_composition(rng, names), rng.choice([None, None, None, "both_raise"]))
@@ -961,6 +1016,12 @@ All reported VIOLATION; "replay" = a concrete failing input found by the oracle,
  M15 TopologicalSortPass: main graph compared at top level only (reverts 733a9c1 partly) -> corr topo + replay (flag, g1:node-order)
  M16 ClearMetadataAndDocStringPass: graph doc string not cleared (flag True every round)
        -> corr clear + replay (fixpoint: no round with modified=False within size+2 rounds)
+ S3  (independent seeded change seeded/C14-m3) _remove_unused_optional_outputs: change signature reduced to
+       (len(node.outputs), len(node.attributes)) -> FIRST MISSED (the random generator only had Dropout with a trailing
+       mask, never a kept node whose only rewrite is a non-trailing blanked optional output); after adding the exhaustive
+       schema-driven family optional_output_specs() (LayerNormalization, BatchNormalization +/- training_mode, Dropout,
+       MaxPool, LSTM, GRU x every used/unused/graph-output role of every output x dead code x opset x trailing None;
+       870 specs, run on every tier independent of the seed) -> replay (LayerNormalization uuc: flag, g0:value:name)
 Also checked: with the four fix commits reverted (old HEAD 823601c) the check reported the six findings
 (KNOWN-FINDING while they were status "known"); with the fixes applied and the old models it reported every
 finding stale + broken correspondences (no false VIOLATION input in 26k oracle evaluations).
